@@ -32,8 +32,8 @@ CHECKS = {
                 quick=dict(batches=16, runs=300, timeout=900),
                 thorough=dict(batches=64, runs=4000, timeout=5400)),
     "C11": dict(engines=["c11", "c11cli"], level="exploration", race_engines=["c11"],
-                quick=dict(batches=16, runs=200, race_batches=16, race_runs=40, timeout=900),
-                thorough=dict(batches=64, runs=3000, race_batches=32, race_runs=500, timeout=5400)),
+                quick=dict(batches=16, runs=200, race_batches=16, race_runs=1200, timeout=900),
+                thorough=dict(batches=64, runs=3000, race_batches=64, race_runs=3000, timeout=5400)),
 }
 
 NA_PURE = "pure single-threaded function of its input: no schedule, clock, stream fault, nondeterminism seam or operation history can change its truth, so a simulator has nothing to own (DESIGN.md §2, §5)"
